@@ -2,6 +2,7 @@ import SpowtdModel.Driver.ClassifyCmd
 import SpowtdModel.Driver.LoadCmd
 import SpowtdModel.Driver.CurvesCmd
 import SpowtdModel.Driver.TxnCmd
+import SpowtdModel.Driver.HydCmd
 open Lean Spowtd Spowtd.Driver
 
 def dispatch (cmd : String) (j : Json) : Except String Json :=
@@ -16,6 +17,16 @@ def dispatch (cmd : String) (j : Json) : Except String Json :=
   | "load.q" => cmdLoad (α := Rat) j
   | "timestamp" => cmdTimestamp j
   | "txn.check" => cmdTxnCheck j
+  | "integrate.f" => cmdIntegrate j
+  | "pwl.f" => cmdPwl j
+  | "tspline.f" => cmdTSpline j
+  | "peatclsm.sy.f" => cmdPeatSy j
+  | "peatclsm.t.f" => cmdPeatT j
+  | "curve.f" => cmdCurve j
+  | "meanet.q" => cmdMeanET (α := Rat) j
+  | "meanet.f" => cmdMeanET (α := Float) j
+  | "pest" => cmdPest j
+  | "pest.runins" => cmdRunIns j
   | "txn.footprints" => cmdFootprints j
   | "regrid.q" => cmdRegrid (α := Rat) j
   | "regrid.f" => cmdRegrid (α := Float) j
